@@ -360,6 +360,18 @@ class UpdatedCtx(_Scope):
         st.check("canary", z3.BoolVal(False), kind="canary")
 
 
+def _from_c08(base, prefixes):
+    """State supplied *through disposables* (statement of C01): the part of the Disposables contracts (C08)
+    that says which state objects a scope receives from them, re-used as obligations of C01."""
+    return type("C01" + base.__name__, (base,), dict(
+        name=base.name.replace("C08/", "C01/"), props=("C01",),
+        keep=staticmethod(lambda n, p=prefixes: n.startswith(p) or n == "canary")))()
+
+
+from .C08 import Initialize as _C08Initialize, Enter as _C08Enter      # noqa: E402
+
 P = ("C01-",)
-CONTRACTS = [variant(Init, "C01", P), variant(Lookup, "C01", P), variant(Updated, "C01", P), Current(), CtxState(), UpdatedCtx(),
+_DISP = [_from_c08(_C08Initialize, ("P1:returns-none",)),
+         _from_c08(_C08Enter, ("P1:one-_initialize-per-disposable", "P1:result-is-the-in-order-concatenation"))]
+CONTRACTS = _DISP + [variant(Init, "C01", P), variant(Lookup, "C01", P), variant(Updated, "C01", P), Current(), CtxState(), UpdatedCtx(),
              variant(AsyncScope, "C01", P)]
